@@ -115,8 +115,9 @@ def coq_observation(out):
 def coq_case(case, out):
     """bool: the model run on the same sessions and faults yields exactly the implementation's observation."""
     start = START[case.get('start', 'pooled')]
+    faults = sorted(set(case.get('faults', [])) | set(out.get('real_failures', [])))      # injected + the driver's own failures
     return 'obs_eqb (observe (run_sessions (faults_oracle %s) %s %s)) (%s)' % (
-        coq_faults(case.get('faults', [])), coq_sessions(case, out), start, coq_observation(out))
+        coq_faults(faults), coq_sessions(case, out), start, coq_observation(out))
 
 
 def run_bools(ctx, exprs, chunk=400, name='cases', header=HEADER):
@@ -160,7 +161,7 @@ def session_anomalies(case, out):
     tag = '%s/%s' % (case['shape'], case.get('start', 'pooled'))
     def fault_calls():
         names = []
-        for k in case.get('faults', []):
+        for k in sorted(set(case.get('faults', [])) | set(out.get('real_failures', []))):
             if k < len(out['trace']):
                 e = out['trace'][k]
                 names.append(e[0] + (':' + e[1] if e[1] else ''))
@@ -169,9 +170,22 @@ def session_anomalies(case, out):
     exc = out['sessions'][-1]['exc']
     if any(x['exc'] == 'ERuntime' for x in out['sessions']):
         res.append(('protocol-error-leaves-session:%s' % where, 'a RuntimeError (release of an unlocked lock) left the session (%s, faults [%s] = %s)' % (tag, faults, where)))
-    elif not case.get('faults') and case.get('start') != 'fresh' and all(x['exc'] != 'none' for x in out['sessions'][-1:]) \
-            and not any(op[0] == 'raise' for sh_ops in [[case['shape'], case['ops']]] + list(case.get('more', [])) for op in sh_ops[1]):
-        res.append(('fault-free-session-fails:%s' % exc, 'a session without any injected fault and without a raising body ends with %s (%s)' % (exc, tag)))
+    # a session none of whose own DB-API calls failed and whose body does not raise must succeed, whatever happened in the sessions before it
+    allf = set(case.get('faults', [])) | set(out.get('real_failures', []))
+    sess_ops = [case['ops']] + [x[1] for x in case.get('more', [])]
+    lo = 0
+    for si, x in enumerate(out['sessions']):
+        hi = x['calls']
+        own = [k for k in allf if lo <= k < hi]
+        if not own and x['exc'] != 'none' and si < len(sess_ops) and not any(op[0] == 'raise' for op in sess_ops[si]):
+            res.append(('fault-free-session-fails:%s:%s' % (x['exc'], 'first' if si == 0 else 'after-%s' % where),
+                        'session %d met no failing DB-API call and its body does not raise, yet it ends with %s (%s; failures of earlier sessions: [%s] = %s)' % (si, x['exc'], tag, faults, where)))
+            break
+        lo = hi
+    for ev in out.get('lock_events', []):
+        res.append(('provider-lock-%s:%s' % (ev[0], where), 'the provider lock was released %s (%s, faults [%s] = %s)' %
+                    ('while it was not held (released twice)' if ev[0] == 'release-of-unlocked-lock' else 'by a thread that does not hold it (lock of %s taken away)' % (ev[2] if len(ev) > 2 else '?'), tag, faults, where)))
+        break
     if a['lock']:
         res.append(('lock-left-held:%s' % where, 'provider.transaction_lock is still held after the session (%s, faults at calls [%s] = %s)' % (tag, faults, where)))
     if a['prelock']:
@@ -277,6 +291,15 @@ def random_body(rng, shape, n):
     return ops or [['select', False, 0]]
 
 
+READER_CASES = [
+    # the COMMIT fails for real ('database is locked': another connection keeps a read transaction open), then the reader goes away
+    {'shape': 'imm', 'start': 'none', 'ops': [['rawwrite', False, 1]], 'reader': 'first', 'more': [['imm', [['rawwrite', False, 2]]]], 'name': 'commit-locked/imm'},
+    {'shape': 'opt', 'start': 'pooled', 'ops': [['new', False, 1], ['rawwrite', False, 2]], 'reader': 'first', 'more': [['opt', [['new', False, 3]]], ['ser', [['forupd', False, 1]]]], 'name': 'commit-locked/opt'},
+    {'shape': 'opt', 'start': 'fresh', 'ops': [['new', False, 1], ['commit', True, 0], ['select', False, 0], ['new', False, 2], ['commit', True, 0]], 'reader': 'all', 'name': 'commit-locked/caught'},
+    {'shape': 'ddl', 'start': 'none', 'ops': [['ddlwrite', False, 1]], 'reader': 'first', 'more': [['imm', [['rawwrite', False, 2]]]], 'name': 'commit-locked/ddl'},
+]
+
+
 def session_base_cases(ctx, deep=False):
     """fault-free base cases: every template x start, plus seeded random bodies and two-session sequences."""
     base = []
@@ -284,6 +307,7 @@ def session_base_cases(ctx, deep=False):
         for name, ops in progs:
             for start in ('pooled', 'none', 'fresh'):
                 base.append({'shape': shape, 'start': start, 'ops': ops, 'faults': [], 'name': '%s/%s' % (shape, name)})
+    for c in READER_CASES: base.append(dict(c, faults=[]))
     nrand = ctx.scale(10, 60) if not deep else 80
     for k in range(nrand):
         shape = ctx.rng.choice(['opt', 'opt', 'imm', 'ser', 'ddl', 'nonopt'])
@@ -326,6 +350,10 @@ THREAD_TEMPLATES = [
     (2, [[0, 'enter', 'ser'], [1, 'enter', 'opt'], [0, 'select', 0], [1, 'new', 3], [1, 'exit', 0], [0, 'exit_exc', 0], [1, 'enter', 'opt'], [1, 'select', 0], [1, 'exit', 0]], {}),
     (2, [[0, 'enter', 'imm'], [1, 'enter', 'ddl'], [0, 'rawwrite', 1], [1, 'ddlwrite', 1], [0, 'exit', 0], [1, 'exit', 0]], {'0': [7]}),
     (2, [[0, 'enter', 'imm'], [1, 'enter', 'imm'], [0, 'rawwrite', 1], [1, 'rawwrite', 2], [0, 'exit', 0], [1, 'exit', 0]], {'0': [7, 8]}),
+    # the COMMIT of thread 0 fails while thread 1 (and 2) wait for the lock: the lock must change hands exactly once
+    (2, [[0, 'enter', 'imm'], [1, 'enter', 'imm'], [0, 'rawwrite', 1], [1, 'rawwrite', 2], [0, 'exit', 0], [1, 'exit', 0]], {'0': [7]}),
+    (3, [[0, 'enter', 'opt'], [1, 'enter', 'imm'], [2, 'enter', 'ser'], [0, 'new', 1], [0, 'flush', 0], [1, 'rawwrite', 2], [2, 'forupd', 1], [0, 'commit', 0], [0, 'exit', 0],
+         [1, 'exit', 0], [2, 'exit', 0]], {'0': [7]}),
     (3, [[0, 'enter', 'imm'], [1, 'enter', 'imm'], [2, 'enter', 'imm'], [0, 'select', 0], [1, 'select', 0], [2, 'select', 0], [0, 'exit', 0], [1, 'exit_exc', 0], [2, 'exit', 0]], {}),
 ]
 
@@ -449,6 +477,15 @@ def thread_anomalies(case, out):
         res.append(('thread-alive', '%d worker threads did not terminate (%s)' % (out['threads_alive'], name)))
     for k, n in out.get('closes', {}).items():
         if n > 1: res.append(('connection-closed-twice-threads', 'connection %s closed %d times (%s)' % (k, n, name)))
+    for ev in out.get('lock_events', []):
+        res.append(('provider-lock-%s-threads' % ev[0], 'the provider lock was released %s in schedule %s (%r)' %
+                    ('while it was not held (released twice)' if ev[0] == 'release-of-unlocked-lock' else 'by a thread that does not hold it', name, ev)))
+        break
+    # a thread none of whose own calls is made to fail must not see any exception (its sessions do not raise by themselves)
+    for t, op, arg, outcome, _lk in out.get('effective', []):
+        if str(t) not in case.get('faults', {}) and outcome not in ('ok', 'blocked', 'skipped', 'noop', 'rolled-back') and not case.get('with_sem'):
+            res.append(('fault-free-thread-fails:%s' % outcome, 'thread %d has no failing DB-API call of its own, yet its %s ends with %s (%s)' % (t, op, outcome, name)))
+            break
     return res
 
 
